@@ -329,6 +329,12 @@ func (x *runner) roundtrip(t *Ty, rv reflect.Value, note string) {
 		}
 	}
 
+	// 5b. marked values: the same file with the top-level attributes read from marked
+	// variables must decode to the same value (marks are dropped), without panic
+	if !badStr && !forHaz && len(fileOfValue(t, rv).Attrs) > 0 && x.r.Chance(0.3) {
+		x.marked(t, rv, want, sp)
+	}
+
 	// 6. JSON route: the document is written from the harness's own abstract file
 	if !badStr {
 		tmpl := x.r.Chance(0.2)
@@ -509,6 +515,45 @@ func (x *runner) illFormed(t *Ty, rv reflect.Value) {
 	}
 }
 
+func (x *runner) marked(t *Ty, rv, want reflect.Value, sp *Spec) {
+	rep := x.rep
+	rep.Hist("marked-variant")
+	msrc, ctx, err := markedVariant(x.r, fileOfValue(t, rv))
+	if err != nil {
+		rep.Hist("marked-variant:writer-panic(not C16)")
+		return
+	}
+	file, d := hclsyntax.ParseConfig(msrc, "t.hcl", hcl.InitialPos)
+	if d.HasErrors() {
+		rep.Hist("marked-variant:parse-error")
+		return
+	}
+	out, diags, p := decodeReal(file.Body, ctx, t)
+	switch {
+	case p != nil:
+		x.fail("decode-panic-marked-value", fmt.Sprintf("%v\n%s", p, msrc), sp)
+	case diags.HasErrors():
+		x.fail("marked-decode-differs", diagStr(diags)+"\n"+string(msrc), sp)
+	default:
+		clearBodies(t, out)
+		if !reflect.DeepEqual(want.Interface(), out.Interface()) {
+			x.fail("marked-decode-differs", diffPath(t, want, out, "v")+"\n"+string(msrc), sp)
+		} else {
+			rep.Hist("oracle-ok:marked")
+		}
+	}
+	if inUniverse(t) {
+		info := &hv.ValInfo{}
+		af, ok := fileOfBodyCtx(file.Body.(*hclsyntax.Body), ctx)
+		cs := coqAFile(af, info)
+		if ok && !info.Inexact && !info.Unsupported {
+			x.addCase(fmt.Sprintf("CDec %s %s %s", coqSchema(t.F), cs, coqDecObs(t, out, diags, p)), "dec-marked:"+sp.String())
+			rep.Hist("coq:dec-case")
+			rep.Hist("coq:dec-case:marked")
+		}
+	}
+}
+
 // nonWF: struct types OUTSIDE wf_schema (where gohcl panics).  No oracle: only the
 // correspondence model-Panic == Go-panic is checked (CEnc ... None / CDec ... None).
 func (x *runner) nonWF(t *Ty, rv reflect.Value, texts []string, note string, skipEnc bool) {
@@ -556,12 +601,18 @@ func (x *runner) markedCase() {
 	x.rep.Count(sp.String(), true)
 	file, _ := hclsyntax.ParseConfig(src, "t.hcl", hcl.InitialPos)
 	ctx := &hcl.EvalContext{Variables: map[string]cty.Value{"v": cty.StringVal("s").Mark("sensitive")}}
-	_, _, p := decodeReal(file.Body, ctx, t)
-	if p != nil {
+	out, diags, p := decodeReal(file.Body, ctx, t)
+	switch {
+	case p != nil:
 		x.fail("decode-panic-marked-value", fmt.Sprintf("DecodeBody panics when an attribute evaluates to a marked value: %v", p), sp)
-	} else {
+	case diags.HasErrors() || out.Field(0).String() != "s":
+		x.fail("marked-decode-differs", diagStr(diags), sp)
+	default:
 		x.rep.Hist("oracle-ok:marked")
 	}
+	info := &hv.ValInfo{}
+	af, _ := fileOfBodyCtx(file.Body.(*hclsyntax.Body), ctx)
+	x.addCase(fmt.Sprintf("CDec %s %s %s", coqSchema(t.F), coqAFile(af, info), coqDecObs(t, out, diags, p)), "dec-marked:"+sp.String())
 }
 
 // ---- entry ------------------------------------------------------------------------------------------
